@@ -327,6 +327,8 @@ def run(ck: Check, repo: Repo) -> None:
 
     # ---------------- C10.5
     _alignment(ck, repo, add, window)
+    from ._c10_r5 import run_r5
+    run_r5(ck, repo)
 
 
 def _body_ids(cfg: CFG, loop: Node) -> Set[int]:
@@ -736,4 +738,17 @@ VARIANTS += [
     ("add-named-condition-one-short", _RBF, _ADD_TAIL,
      "        window_full = len(self.n_step_buffer) >= self.n_step - 1\n        if window_full:\n            super().add(self._get_n_step_info())\n"
      "        return self.n_step_buffer[0] if window_full else None\n", "fire", "C10.5"),
+]
+
+_CLR = "        super().clear()\n        self.n_step_buffer.clear()\n"
+VARIANTS += [
+    ("clear-window-resized-keeps-contents", _RBF, _CLR, "        super().clear()\n        self.n_step_buffer = deque(self.n_step_buffer, maxlen=self.n_step)\n", "fire", "C10.6"),
+    ("clear-window-copied-via-local", _RBF, _CLR, "        super().clear()\n        old = list(self.n_step_buffer)\n        self.n_step_buffer = deque(old, maxlen=self.n_step)\n", "fire", "C10.6"),
+    ("clear-window-not-emptied", _RBF, _CLR, "        super().clear()\n", "fire", "C10.6"),
+    ("clear-window-emptied-only-when-full", _RBF, _CLR, "        super().clear()\n        if len(self.n_step_buffer) >= self.n_step:\n            self.n_step_buffer.clear()\n", "fire", "C10.6"),
+    ("clear-one-step-storage-kept", _RBF, _CLR, "        self.n_step_buffer.clear()\n", "fire", "C10.6"),
+    ("clear-window-rebound-fresh-ok", _RBF, _CLR, "        super().clear()\n        self.n_step_buffer = deque(maxlen=self.n_step)\n", "silent", None),
+    ("clear-window-rebound-fresh-empty-iterable-ok", _RBF, _CLR, "        fresh = deque([], maxlen=self.n_step)\n        self.n_step_buffer = fresh\n        ReplayBuffer.clear(self)\n", "silent", None),
+    ("clear-window-via-alias-reordered-ok", _RBF, _CLR, "        window = self.n_step_buffer\n        window.clear()\n        super().clear()\n", "silent", None),
+    ("clear-one-step-reset-inline-ok", _RBF, _CLR, "        self.n_step_buffer.clear()\n        self._size = self._cursor = 0\n        self._storage, self.initialized = None, False\n", "silent", None),
 ]
